@@ -398,3 +398,39 @@ pub fn cli(ctx: &Ctx) -> Stats {
         }
     })
 }
+
+/// stress without any sink (no monitor-induced synchronisation): meant for the ThreadSanitizer
+/// flavour, also valid natively.  Many mapped-writer runs with up to 16 workers; outputs judged.
+pub fn stress(ctx: &Ctx) -> Stats {
+    let mut st = Stats::new();
+    let n = ctx.n(40, 150);
+    for i in 0..n {
+        if ctx.expired() {
+            st.truncated = true;
+            break;
+        }
+        let mut rng = Rng::keyed(ctx.seed, "c05.stress", i);
+        let threads = rng.usize(2, 16);
+        let nrec = rng.usize(threads, 200);
+        let k = rng.usize(2, 4);
+        let recs = distinct_records(&mut rng, nrec, k, true);
+        let cfg = OligoCfg { k, threads, memory: 4 << 30, header: rng.chance(1, 2), delim: rng.pick(&[" ", "::", "\t"]).to_string(), norm: true, writer: if i % 3 == 0 { Writer::Batch } else { Writer::Mmap } };
+        let sc = Scratch::new(ctx, "c05s");
+        let inp = write_input(&sc, "in", &recs, &Container::FastaSingle, None, &mut rng);
+        st.case(true, mix(i) ^ hash_bytes(&recs[0].seq));
+        st.class(&format!("writer={:?}", cfg.writer));
+        let case = || Json::obj().set("cfg", cfg.json()).set("records", recs_json(&recs));
+        match run_plain(&sc, &inp, "out.kmers", &cfg) {
+            Ok(d) => {
+                if let Err((sig, msg)) = check_rows(&d, &recs, &cfg) {
+                    st.violate(&sig, msg, case());
+                }
+            }
+            Err((sig, msg)) => st.violate(&sig, msg, case()),
+        }
+        if i % 29 == 0 {
+            st.sample(Json::obj().set("cfg", cfg.json()).set("records", Json::u(recs.len())));
+        }
+    }
+    st
+}
